@@ -55,12 +55,7 @@ impl PostConversionLinter for BuiltInLinter {
                 }
                 lint_function_call(built_in_function, pos, args)
             }
-            Expression::BinaryExpression(_, left, right, _) => {
-                self.visit_expression(left)?;
-                self.visit_expression(right)
-            }
-            Expression::UnaryExpression(_, child) => self.visit_expression(child),
-            _ => Ok(()),
+            e => self.visit_child_expressions(e, pos),
         }
     }
 }
